@@ -132,11 +132,21 @@ def rule_dedup(ctx):
             # one entry per (tx, hashX): extend once per iteration with the tx number of this tx
             outer = [p for p, _f in q.enclosing_chain(lp[0], f.node) if isinstance(p, ast.For)]
             good_num = False
-            if outer and isinstance(outer[0].iter, ast.Call) and norm(outer[0].iter.func) == 'enumerate':
-                kws = {k.arg: norm(k.value) for k in outer[0].iter.keywords}
-                numv = norm(outer[0].target.elts[0])
+            if outer and norm(outer[0].iter) == f.params[1]:
+                # (the normaliser spells `enumerate(hashXs_by_tx, start=first_tx_num)` as the counter it abbreviates)
+                # a counter initialised to first_tx_num before the loop, incremented by one exactly once at the end of each
+                # iteration, and the packed number is made from it
+                incs = [s_ for s_ in outer[0].body if isinstance(s_, ast.AugAssign) and isinstance(s_.op, ast.Add) and const_value(s_.value) == 1
+                        and isinstance(s_.target, ast.Name)]
                 argd = df.last_def_before(f, norm(exts[0].args[0]), exts[0]) if isinstance(exts[0].args[0], ast.Name) else None
-                good_num = kws.get('start') == f.params[2] and norm(outer[0].iter.args[0]) == f.params[1] and argd is not None and numv in norm(argd[1])
+                for inc_ in incs:
+                    numv = inc_.target.id
+                    inits = [s_ for s_ in f.node.body if isinstance(s_, ast.Assign) and norm(s_.targets[0]) == numv and s_.lineno <= outer[0].lineno]
+                    others = [s_ for s_ in q.assigns(ctx, f, numv) if s_ is not inc_ and s_ not in inits]
+                    if len(inits) == 1 and norm(inits[0].value) == f.params[2] and not others and inc_ is outer[0].body[-1] \
+                            and argd is not None and numv in q.names_in(argd[1]) \
+                            and not any(isinstance(x, ast.Continue) for x in walk_own(outer[0])):
+                        good_num = True
             ok = ok and good_num
             why += f'; numbering from first_tx_num over hashXs_by_tx ok={good_num}'
     ctx.check(ok, 'C02.DEDUP', ctx.key(f, None, 'set per tx'),
